@@ -263,7 +263,63 @@ func body(sp spec) {
 	}
 }
 
+// cancelScenario: three subscriptions exist, one message is published and the FIRST subscription is
+// cancelled concurrently: the two that stay open must receive the message exactly once.
+func cancelScenario(cfg hx.GCfg, c int) *explore.Scenario {
+	return &explore.Scenario{Name: fmt.Sprintf("%s/cancel-during-dispatch", cfg), C: c, Body: func() {
+		g := cfg.New()
+		ctxA, cancelA := context.WithCancel(context.Background())
+		counts := make([]int, 3)
+		for s := 0; s < 3; s++ {
+			s := s
+			ctx := context.Background()
+			if s == 0 {
+				ctx = ctxA
+			}
+			ch, err := g.Subscribe(ctx, "t")
+			if err != nil {
+				vs.Fail("subscribe-error", "%v", err)
+				return
+			}
+			go func() {
+				for m := range ch {
+					counts[s]++
+					m.Ack()
+				}
+			}()
+		}
+		go func() {
+			if err := g.Publish("t", hx.Msg("m0")); err != nil {
+				vs.Fail("publish-error", "%v", err)
+			}
+		}()
+		go cancelA()
+		vs.Quiesce()
+		for s := 1; s < 3; s++ {
+			if counts[s] != 1 {
+				vs.Fail("delivery", "subscription %d stayed open while another one was cancelled: it received the message %d times (cfg %s)", s, counts[s], cfg)
+			}
+		}
+		if counts[0] > 1 {
+			vs.Fail("redelivery", "the cancelled subscription received the message %d times", counts[0])
+		}
+		vs.Note("%v", counts)
+		cancelA()
+		g.Close()
+	}}
+}
+
 func init() {
+	for _, cfg := range hx.AllGCfg(0, 1) {
+		cfg := cfg
+		sc := cancelScenario(cfg, 1)
+		reg.AddW("C04", sc.Name, reg.Quick, 15, func(t reg.Tier) *explore.Scenario {
+			if t == reg.Thorough {
+				return cancelScenario(cfg, 2)
+			}
+			return cancelScenario(cfg, 1)
+		})
+	}
 	add := func(tier reg.Tier, w int, sp spec, cThorough int) {
 		sc := scenario(sp)
 		reg.AddW("C04", sc.Name, tier, w, func(t reg.Tier) *explore.Scenario {
